@@ -129,7 +129,7 @@ func init() {
 		Rule: "twin execution full vs masked: generated wrapper types (tools/gen_capfs.py, one Go type per method set) expose every subset of the optional interfaces a helper's dispatch can consult, over os.FS (natively implements everything, so each fallback is compared with the optimised path it replaces), mem.FS and mount.FS over mem; for every helper x subset x 9 targets (existing file/dir/empty dir, missing, missing parent, below a file, root, nested) the masked run must give the full run's result class, data and final tree, or fail with ErrNotImplemented leaving the tree unchanged. Handles come with subsets of the file interfaces for the *File helpers and for fallbacks that rely on them. " +
 			"Fault enumeration: the clean masked run's primitive calls are counted (N) and the helper is re-run on a fresh state once per k<N with the k-th primitive failing; a helper that then reports success must have produced the fault-free result and state. Non-trivial: masked subsets that actually took a fallback (primitive log differs from the full run); distinct by (base, helper, hidden interfaces, target)",
 		Assumptions: []string{"interfaces the base FS does not implement natively cannot be exposed; the subset lattice is taken over the native ones", "Symlink runs on os.FS only", "a failing file.Close after a completed read-only helper is not 'work not done': the oracle demands the fault-free result and state whenever success is reported"},
-		NumCases:    func(env *core.Env) int { c08build(); return len(c08list) * env.Pick(1, 9) },
+		NumCases:    func(env *core.Env) int { c08build(); return len(c08list) * env.Pick(3, 60) },
 		Batch:       150,
 		Run:         c08run,
 		Floor: func(env *core.Env, agg *core.Agg) string {
